@@ -33,3 +33,17 @@ func VerifSetQueueSize(n int) { faceQueueSize = n }
 
 // VerifSendQueueLen is the number of frames an internal component has sent and nobody consumed.
 func (t *InternalTransport) VerifSendQueueLen() int { return len(t.sendQueue) }
+
+// VerifPeekSent returns the frames an internal component has sent and nobody consumed, in the
+// order they were sent, and leaves them in the queue (called only while nothing else uses the
+// transport).
+func (t *InternalTransport) VerifPeekSent() [][]byte {
+	n := len(t.sendQueue)
+	out := make([][]byte, 0, n)
+	for i := 0; i < n; i++ {
+		f := <-t.sendQueue
+		out = append(out, f)
+		t.sendQueue <- f
+	}
+	return out
+}
